@@ -695,6 +695,15 @@ func ruleC16Only(r *Run) {
 				other = blk.Succs[1]
 			}
 			if isEq && len(other.Instrs) > 0 && !isReturnInstr(other.Instrs[0]) && !pathExists(res, other.Instrs[0], isReturnInstr, nil, nil) {
+				subj := call.Call.Value
+				if !call.Call.IsInvoke() && len(call.Call.Args) > 0 {
+					subj = call.Call.Args[0]
+				}
+				if k == 25 && !oneElemAway(subj) {
+					// Kind() == Struct is asked of something that is not exactly the pointee of the controller (e.g. the end
+					// of the whole pointer chain): a **T controller passes the gate and registers nothing
+					continue
+				}
 				kinds[k] = true
 			}
 		}
@@ -1934,4 +1943,61 @@ func aliasesParam(v ssa.Value, f *ssa.Function) bool {
 		return false
 	}
 	return walk(v, 0)
+}
+
+// oneElemAway: the reflect value / type whose Kind is compared is reached from reflect.ValueOf(x) (or its Type) by
+// exactly one Elem() — not through a loop that strips every pointer level.
+func oneElemAway(v ssa.Value) bool {
+	elems := 0
+	for d := 0; d < 12 && v != nil; d++ {
+		switch x := v.(type) {
+		case *ssa.Phi:
+			return false // merged over a loop: an unknown number of Elem() steps
+		case *ssa.Call:
+			n := calleeName(x)
+			switch {
+			case strings.HasSuffix(n, ".Elem"):
+				elems++
+				if x.Call.IsInvoke() || len(x.Call.Args) == 0 {
+					v = x.Call.Value
+				} else {
+					v = x.Call.Args[0]
+				}
+				continue
+			case strings.HasSuffix(n, ".Type"):
+				if x.Call.IsInvoke() || len(x.Call.Args) == 0 {
+					v = x.Call.Value
+				} else {
+					v = x.Call.Args[0]
+				}
+				continue
+			case n == "reflect.ValueOf" || n == "reflect.TypeOf":
+				return elems == 1
+			case n == "reflect.Indirect":
+				elems++
+				v = x.Call.Args[0]
+				continue
+			}
+			if x.Call.IsInvoke() && x.Call.Method.Name() == "Elem" {
+				elems++
+				v = x.Call.Value
+				continue
+			}
+			return false
+		case *ssa.MakeInterface:
+			v = x.X
+			continue
+		case *ssa.UnOp:
+			if al, ok := x.X.(*ssa.Alloc); ok {
+				if sv := singleStore(al); sv != nil {
+					v = sv
+					continue
+				}
+			}
+			return false
+		default:
+			return false
+		}
+	}
+	return false
 }
